@@ -160,6 +160,44 @@ def run_rules(ctx, chk):
                        'Ok result is %s' % (('&self.%s' % cache) if cache else fmt(p.value)[:80]))
                 chk.ob('C02.S3', 'snapshot:cache-untouched-without-accept', not [k for k in stores if k == cache], p.where[2],
                        'fields assigned on a non-accepting path: %s' % sorted(stores))
+        # the cache snapshot() falls back on starts out as the reader's empty initial record: the constructor may not fill
+        # it (or the cached generation) from the mapping, where an update can be in flight
+        rnew = [b for b in fb.bodies(common.SHM) if b.name == 'new' and (b.impl_self or '').endswith('ShmReader') and b.defkind != 'Closure']
+        for b in rnew:
+            chk.saw(b)
+            eng_n = common.mk_engine(fb, inline_depth=8)
+            n_ok = 0
+            for q in eng_n.run(b):
+                if not (q.kind == 'return' and q.value[0] == 'agg' and q.value[2] == 'Ok' and q.value[3] and q.value[3][0][0] == 'agg'):
+                    continue
+                n_ok += 1
+
+                def leaves(v, out):
+                    if v[0] == 'agg' and v[2] is not None and not v[1].startswith('std::marker'):
+                        adt = eng_n.find_adt(v[1], b.crate) or {}
+                        flds = adt.get('variants', [{}])[0].get('fields', []) if adt.get('kind') == 'struct' else []
+                        names = [f['name'] for f in flds]
+                        if v[1].endswith('ClockErrorBound'):
+                            out.append(('record', v))
+                        elif names and len(names) == len(v[3]) and v[1].startswith(common.SHM):
+                            for f_, fv in zip(flds, v[3]):
+                                fty = b.crate.types[f_['ty']]['s']
+                                if fty.endswith('ClockErrorBound') and not fty.startswith('*'):
+                                    out.append(('record', fv))
+                                elif fv[0] == 'agg':
+                                    leaves(fv, out)
+                                elif fty == 'u16':
+                                    out.append((f_['name'], fv))      # a cached generation
+                    elif v[0] != 'agg':
+                        out.append(('?', v))
+                    return out
+                for nm_, fv in leaves(q.value[3][0], []):
+                    derived = any(x[0] == 't' and x[1] in ('call', 'deref') for x in psi.walk(fv)) or any(x[0] == 'sym' for x in psi.walk(fv))
+                    if nm_ == 'record' or (fv[0] == 'c' or derived):
+                        chk.ob('C02.S3', 'new:cache-starts-empty', not derived, q.where[2],
+                               'ShmReader::new initialises its %s with %s' % ('cached record' if nm_ == 'record' else 'field ' + nm_, fmt(fv)[:100]) +
+                               ('' if not derived else ' -- read from the segment without the generation check, served later by the cache exits of snapshot()'))
+            chk.floor('C02.S3', 'Ok paths of ShmReader::new', n_ok, 1)
         # loop invariant: whatever the retry loop carries as the reference generation into the next
         # iteration is even (otherwise a copy taken while an update is in flight can be accepted)
         from . import C03
